@@ -206,6 +206,13 @@ class Runner:
             for k, v in st.items():
                 agg['gen_' + k] += v
             docs.append((hfront.dump_yaml(doc, v3root=True), dirs))
+            if len(docs) == 1:
+                # one plain document whose environment holds every string a YAML resolver may take for something else
+                import copy
+                from harness import gencfg as _g
+                plain = copy.deepcopy(cfg)
+                plain['trace']['environment'] = {f't{i}': v for i, v in enumerate(_g.TRICKY_STRINGS)}
+                docs.append((hfront.dump_yaml(plain, v3root=True), [{}]))
         ostats, _ = self.effective_docs('H-effective3', 3, docs, oracle)
         self._record('H-effective3', agg, 0)
         return ostats
